@@ -98,11 +98,15 @@ pub struct Alphabet {
     pub max_buf: usize,
     pub max_count: u32,
     pub max_pages: usize,
+    /// Whether the lock-step reference remembers the bytes of a malformed transfer until it is closed (the
+    /// "assembled in arrival order" rule). Off for the alphabets with hundreds of chunk kinds or uniform chunk
+    /// contents, where it multiplies the states without being able to tell two chunks apart.
+    pub track_stream: bool,
 }
 
 impl Alphabet {
     fn new(name: &str, max_buf: usize, max_count: u32, max_pages: usize) -> Self {
-        Alphabet { name: name.into(), msgs: vec![], cfg_only: vec![], max_buf, max_count, max_pages }
+        Alphabet { name: name.into(), msgs: vec![], cfg_only: vec![], max_buf, max_count, max_pages, track_stream: false }
     }
     fn push(&mut self, m: Message<'static>) {
         self.msgs.push(m);
@@ -154,6 +158,7 @@ pub fn alphabet_r1(all_lengths: bool) -> Alphabet {
 /// R2: order/content. 14x9 custom sign (32-byte page) and 12x8 (16-byte page); coloured chunks.
 pub fn alphabet_r2() -> Alphabet {
     let mut a = Alphabet::new("R2-order", 48, 4, 2);
+    a.track_stream = true;
     a.extend(sigma_ctl(&[OWN, FOREIGN]));
     a.extend(sigma_cnt(&[0, 1, 2, 3, 4, 5, 65535]));
     for off in [0u16, 16] {
@@ -288,7 +293,9 @@ impl System for SignSys {
         format!("sign/{}/{}", self.alpha.name, if self.automatic { "automatic" } else { "manual" })
     }
     fn initial(&self) -> SignState {
-        SignState { real: VirtualSign::new(Address(OWN), flip(self.automatic)), model: RefSign::new(OWN, self.automatic) }
+        let mut model = RefSign::new(OWN, self.automatic);
+        model.track_stream = self.oracle == Oracle::LockStep && self.alpha.track_stream;
+        SignState { real: VirtualSign::new(Address(OWN), flip(self.automatic)), model }
     }
     fn n_actions(&self) -> usize {
         self.alpha.msgs.len()
@@ -385,7 +392,18 @@ impl System for SignSys {
                         if real.sign_type() != model.typ {
                             viol.push(("sign-type".into(), format!("{}-in-{:?}", kind, before), format!("{}: sign_type {:?}, expected {:?}", ctx(), real.sign_type(), model.typ)));
                         }
-                        if pages_rule == PagesRule::Adopt && real.pages().iter().all(|p| (p.width(), p.height()) == (model.w, model.h)) {
+                        let sizes_ok = real.pages().iter().all(|p| (p.width(), p.height()) == (model.w, model.h));
+                        if let PagesRule::AdoptFromStream(stream) = &pages_rule {
+                            let held: Vec<Vec<u8>> = real.pages().iter().map(|p| p.as_bytes().to_vec()).collect();
+                            if real.state() == State::PixelsReceived && sizes_ok && !crate::refsign::pieces_of_stream(&held, stream) {
+                                viol.push((
+                                    "pages".into(),
+                                    format!("{}-in-{:?}:not-assembled-in-arrival-order", kind, before),
+                                    format!("{}: every chunk that arrived was counted and the transfer is reported received, but the {} stored page(s) {:?} are not consecutive pieces of the {} bytes that arrived, in arrival order", ctx(), held.len(), held.iter().map(|p| crate::util::hex(&p[..p.len().min(8)])).collect::<Vec<_>>(), stream.len()),
+                                ));
+                            }
+                        }
+                        if matches!(pages_rule, PagesRule::Adopt | PagesRule::AdoptFromStream(_)) && sizes_ok {
                             model.adopt_pages(real.pages().iter().map(|p| p.as_bytes().to_vec()).collect());
                         }
                         if pages_rule == PagesRule::Exact && !pages_equal(&real, &model) {
